@@ -9,6 +9,7 @@ lines pull items out of the repository source as text and annotate them:
   //@fn file=src/x.rs name=NAME [impl=REGEX] [nth=K] copy a function and annotate it, until //@end:
       (with macro=M invfile=src/y.rs : the function is the instantiation `M!(NAME, ...)` found in invfile of the
        macro_rules! M defined in file - rule X7: textual substitution of the $parameters by the invocation's arguments;
+       with localmacros=1 : rule X9 expands the function-local single-rule macro_rules! items textually (expr arguments in parentheses);
        with foreach=1 : rule X8 rewrites `(A..B).for_each(|v| { body });` into `for v in A..B { body }` before annotation)
       //@ret NAME                    name the result            (X2)
       //@attr :: #[...]              attribute placed on the extracted copy (e.g. #[verifier::external_body] = assumed contract)
@@ -21,7 +22,7 @@ lines pull items out of the repository source as text and annotate them:
       //@loop N top :: TEXT          inserted at start of loop body
       //@loop N end :: TEXT          inserted at end of loop body (before the X4 increment)
       //@loop N stepby TYPE          X4 rewrite of `for i in (a..b).step_by(k)[.rev()]`
-      //@loop N enumerate            X6 rewrite of `for (i, x) in place.iter().enumerate() {` into an index loop (`let x = &place[i]`)
+      //@loop N enumerate            X6 rewrite of `for (i, x) in place.iter().enumerate() {` into an index loop (`let x = &place[i]`; `iter_mut()`: `let x = &mut place[i]`)
       //@loop N itermut IDX          X5 rewrite of `for x in &mut place {` into an index loop (`let x = &mut place[IDX]`)
       //@before loop=N guard=IDENT [nth=K] :: TEXT   before the K-th top-level statement of loop N's body
       //@after  loop=N guard=IDENT [nth=K] :: TEXT   (N=0: the function body) that mentions IDENT
@@ -139,6 +140,106 @@ def rewrite_for_each(src, fname):
     return src, done
 
 
+def expand_local_macros(src, fname, impl_re=None, nth=None):
+    """X9: inside function `fname`, expand every function-local single-rule `macro_rules!` item textually.
+
+    Side conditions (else ScanError => exit 2): one rule per macro, of the shape `(params) => { body };`, every
+    parameter `$name:expr` or `$name:ident`, the body introduces no binding (`let`, closure, nested macro_rules!)
+    and every `$` in it is a parameter.  An `expr` argument is substituted in parentheses (rustc parses an `expr`
+    fragment as one expression node, so the parentheses preserve exactly that grouping); an `ident` argument must
+    be a plain identifier and is substituted as it stands.  The macro definitions are removed from the text.
+    """
+    f = rs.find_fn(src, fname, impl_re, nth)
+    a, b = f["open"], f["close"]
+    body = src[a:b + 1]
+    done = []
+    macros = {}
+    while True:
+        m = rs.mask(body)
+        mm = re.search(r"\bmacro_rules!\s+([A-Za-z_][A-Za-z0-9_]*)\s*\{", m)
+        if not mm:
+            break
+        name = mm.group(1)
+        mo = mm.end() - 1
+        mc = rs.match_brace(m, mo)
+        inner = m[mo + 1:mc]
+        po = m.index("(", mo)
+        pc = rs.match_brace(m, po)
+        params = []
+        for part in body[po + 1:pc].split(","):
+            part = part.strip()
+            if not part:
+                continue
+            pm = re.match(r"\$([A-Za-z_][A-Za-z0-9_]*)\s*:\s*(expr|ident)$", part)
+            if not pm:
+                raise ScanError("X9 not applicable: parameter `%s` of local macro %s in %s" % (part, name, fname))
+            params.append((pm.group(1), pm.group(2)))
+        am = re.match(r"\s*=>\s*\{", m[pc + 1:])
+        if not am:
+            raise ScanError("X9 not applicable: rule shape of local macro %s in %s" % (name, fname))
+        bo = pc + 1 + am.end() - 1
+        bc = rs.match_brace(m, bo)
+        if m[bc + 1:mc].strip().strip(";").strip():
+            raise ScanError("X9 not applicable: local macro %s in %s has more than one rule" % (name, fname))
+        mbody = body[bo + 1:bc]
+        mmask = m[bo + 1:bc]
+        if re.search(r"\blet\b|\bmacro_rules\b|\|[^|]*\|\s*\{", mmask) or re.search(r"\bfn\b", mmask):
+            raise ScanError("X9 not applicable: local macro %s in %s introduces bindings" % (name, fname))
+        left = mmask
+        for pn, _k in params:
+            left = re.sub(r"\$%s\b" % re.escape(pn), "", left)
+        if "$" in left:
+            raise ScanError("X9 not applicable: `$` that is not a parameter in local macro %s of %s" % (name, fname))
+        macros[name] = (params, mbody.strip())
+        body = body[:mm.start()] + body[mc + 1:]
+    if not macros:
+        raise ScanError("X9 not applicable: no local macro_rules! in %s" % fname)
+    guard = 0
+    while True:
+        m = rs.mask(body)
+        mm = re.search(r"\b(%s)!\s*\(" % "|".join(re.escape(k) for k in macros), m)
+        if not mm:
+            break
+        guard += 1
+        if guard > 500:
+            raise ScanError("X9 not applicable: macro expansion of %s does not end" % fname)
+        name = mm.group(1)
+        ao = mm.end() - 1
+        ac = rs.match_brace(m, ao)
+        args, depth, cur = [], 0, ao + 1
+        for k in range(ao + 1, ac):
+            ch = m[k]
+            if ch in "([{":
+                depth += 1
+            elif ch in ")]}":
+                depth -= 1
+            elif ch == "," and depth == 0:
+                args.append(body[cur:k].strip())
+                cur = k + 1
+        last = body[cur:ac].strip()
+        if last:
+            args.append(last)
+        params, mbody = macros[name]
+        if len(args) != len(params):
+            raise ScanError("X9 not applicable: %s!(..) in %s has %d arguments for %d parameters" % (name, fname, len(args), len(params)))
+        out = mbody
+        # substitute through unique placeholders so that an argument's text is never rescanned for parameters
+        for idx, (pn, kind) in sorted(enumerate(params), key=lambda t: -len(t[1][0])):
+            out = re.sub(r"\$%s\b" % re.escape(pn), "\x00%d\x00" % idx, out)
+        for idx, (pn, kind) in enumerate(params):
+            av = args[idx]
+            if kind == "ident":
+                if not re.match(r"[A-Za-z_][A-Za-z0-9_]*$", av):
+                    raise ScanError("X9 not applicable: argument `%s` for ident parameter of %s! in %s" % (av, name, fname))
+                rep = av
+            else:
+                rep = "(" + av + ")"
+            out = out.replace("\x00%d\x00" % idx, rep)
+        body = body[:mm.start()] + "(" + out + ")" + body[ac + 1:]
+        done.append("%s!(%s)" % (name, ", ".join(args)))
+    return src[:a] + body + src[b + 1:], done, sorted(macros)
+
+
 class FnSplice:
     def __init__(self, repo, params):
         self.repo = repo
@@ -160,6 +261,9 @@ class FnSplice:
             self.extra.append({"rule": "X7", "what": what})
         else:
             src = open(path).read()
+        if p.get("localmacros"):
+            src, done, names = expand_local_macros(src, p["name"], p.get("impl"), int(p["nth"]) if "nth" in p else None)
+            self.extra.append({"rule": "X9", "what": "local macros %s expanded at %d sites" % (", ".join(names), len(done)), "fn": p["name"]})
         if p.get("foreach"):
             src, done = rewrite_for_each(src, p["name"])
             if not done:
@@ -258,21 +362,24 @@ class FnSplice:
             header_src = text[L["kw"]:L["open"]]
             if "enumerate" in L:
                 # X6: `for (I, X) in PLACE.iter().enumerate() {` => `{ let mut I: usize = 0; while I < PLACE.len() HDR { let X = &PLACE[I]; body; I += 1; } }`
-                mm = re.match(r"for\s+\(\s*([A-Za-z_][A-Za-z0-9_]*)\s*,\s*([A-Za-z_][A-Za-z0-9_]*)\s*\)\s+in\s+([A-Za-z_][A-Za-z0-9_\.]*)\s*\.iter\(\)\s*\.enumerate\(\)\s*$", " ".join(m[L["kw"]:L["open"]].split()))
+                mm = re.match(r"for\s+\(\s*([A-Za-z_][A-Za-z0-9_]*)\s*,\s*([A-Za-z_][A-Za-z0-9_]*)\s*\)\s+in\s+([A-Za-z_][A-Za-z0-9_\.]*)\s*\.(iter|iter_mut)\(\)\s*\.enumerate\(\)\s*$", " ".join(m[L["kw"]:L["open"]].split()))
                 if not mm:
                     raise ScanError("X6 not applicable: loop %d of %s is `%s`" % (idx + 1, p["name"], header_src.strip()))
                 ivar, var, expr = mm.group(1), mm.group(2), mm.group(3)
+                mutref = "&mut " if mm.group(4) == "iter_mut" else "&"
                 body = m[L["open"] + 1:L["close"]]
+                if mutref == "&mut " and re.search(re.escape(expr) + r"\b", body):
+                    raise ScanError("X6 not applicable: `%s` mentioned in the body of its own iter_mut loop %d of %s" % (expr, idx + 1, p["name"]))
                 if re.search(r"\b(continue|break|return)\b", body) or "?" in body:
                     raise ScanError("X6 not applicable: control transfer in body of loop %d of %s" % (idx + 1, p["name"]))
                 if re.search(r"\b%s\s*(=[^=]|\+=|-=)" % ivar, body) or re.search(r"\blet\s+(mut\s+)?(%s|%s)\b" % (ivar, var), body):
                     raise ScanError("X6 not applicable: `%s`/`%s` assigned or rebound in loop %d of %s" % (ivar, var, idx + 1, p["name"]))
                 head = "; { let mut %s: usize = 0; while %s < %s.len()\n%s\n" % (ivar, ivar, expr, hdr)
                 repl.append((L["kw"], L["open"], head))
-                ins.append((L["open"] + 1, 10**8, "\nlet %s = &%s[%s];\n" % (var, expr, ivar)))
+                ins.append((L["open"] + 1, 10**8, "\nlet %s = %s%s[%s];\n" % (var, mutref, expr, ivar)))
                 add_ins(L["close"], "%s\n%s += 1; " % (endtxt, ivar))
                 add_ins(L["close"] + 1, " }")
-                x4.append({"fn": p["name"], "iter": expr + ".iter().enumerate()", "var": var, "x5": True, "while": "", "side": "true"})
+                x4.append({"fn": p["name"], "iter": expr + "." + mm.group(4) + "().enumerate()", "var": var, "x5": True, "while": "", "side": "true"})
             elif "itermut" in L:
                 # X5: `for PAT in &mut EXPR {` => `{ let mut IDX: usize = 0; while IDX < EXPR.len() HDR { let PAT = &mut EXPR[IDX]; body; IDX += 1; } }`
                 mm = re.match(r"for\s+([A-Za-z_][A-Za-z0-9_]*)\s+in\s+&mut\s+([A-Za-z_][A-Za-z0-9_\.]*)\s*$", " ".join(m[L["kw"]:L["open"]].split()))
@@ -414,7 +521,7 @@ def build(template_path, repo):
             if kind in ("struct", "const", "enum", "static", "type"):
                 kv = _kv(args)
                 src = open(os.path.join(repo, kv["file"])).read()
-                a, b = rs.find_item(src, kind, kv["name"])
+                a, b = rs.find_item(src, kind, kv["name"], kv.get("mod"))
                 item = rs.strip_attrs_and_docs(src[a:b])
                 if "derive" in kv:
                     # keep selected derives of the original item (X1 keeps them only on request; they must be present in the source)
